@@ -51,6 +51,14 @@ fn wrap_branching_exprs(
                 OptimizedExpr::Rep(expr)
             }
         }
+        #[cfg(feature = "grammar-extras")]
+        OptimizedExpr::RepOnce(expr) => {
+            if child_modifies_state(&expr, rules, &mut HashMap::new()) {
+                OptimizedExpr::RepOnce(Box::new(OptimizedExpr::RestoreOnErr(expr)))
+            } else {
+                OptimizedExpr::RepOnce(expr)
+            }
+        }
         _ => expr,
     }
 }
@@ -62,6 +70,8 @@ fn child_modifies_state(
 ) -> bool {
     expr.iter_top_down().any(|expr| match expr {
         OptimizedExpr::Push(_) => true,
+        #[cfg(feature = "grammar-extras")]
+        OptimizedExpr::PushLiteral(_) => true,
         OptimizedExpr::Ident(ref name) if name == "DROP" => true,
         OptimizedExpr::Ident(ref name) if name == "POP" => true,
         OptimizedExpr::Ident(ref name) if name == "POP_ALL" => true,
